@@ -5,6 +5,7 @@ package main
 import (
 	"encoding/json"
 	"fmt"
+	"strings"
 	"sort"
 	"time"
 
@@ -192,9 +193,14 @@ func master(cfg *harness.Config, rep *harness.Report) {
 	}
 	alpha := []string{"ins1", "ins2,3", "ins4,5,6(5 without vector)", "ins7(dup of 1)", "upd1(move)", "upd2,3(move both)", "upd1(remove vector)", "upd1,1(move then remove vector)", "upd1,5(add vector)", "queries", "del1", "del2,3", "ins1(again, elsewhere)"}
 	var specs []seqx.Spec
+	if cfg.Extra["hugeonly"] != "" {
+		combos = nil
+	}
+	// huge magnitudes (distances that overflow to +Inf): plain euclidean, small alphabet
+	combos = append(combos, combo{"euclidean1", none})
 	for _, c := range combos {
 		schema := models.IndexSchema{
-			prop:  {Type: models.IndexTypeVectorVamana, VectorVamana: &models.IndexVectorVamanaParameters{VectorSize: sl.DimOf(c.metric), DistanceMetric: c.metric, SearchSize: 75, DegreeBound: 64, Alpha: 1.2, Quantizer: c.q.q}},
+			prop:  {Type: models.IndexTypeVectorVamana, VectorVamana: &models.IndexVectorVamanaParameters{VectorSize: sl.DimOf(c.metric), DistanceMetric: strings.TrimRight(c.metric, "0123456789"), SearchSize: 75, DegreeBound: 64, Alpha: 1.2, Quantizer: c.q.q}},
 			"cat": {Type: models.IndexTypeString, String: &models.IndexStringParameters{CaseSensitive: true}},
 		}
 		syms := symbols(c.metric)
